@@ -171,7 +171,7 @@ def gen_paths(r: random.Random, env: Any, n: int) -> tuple[list[str], dict[str, 
                 continue
             pos, v = r.choice(lists)
             ln = len(v)
-            i = r.choice([0, ln - 1, ln, ln + 2, -1, -ln, -ln - 1, -ln - 3, 1])
+            i = r.choice([0, ln - 1, ln, ln + 2, -1, -ln, -ln - 1, -ln - 3, 1, ln + 300, 499])
             out.append(render(pos) + f"[{i}]" + r.choice(["", "", ".b", ".a", ".zz.q"]))
         elif nodes and k < 0.82:  # overlapping: a path and one of its proper prefixes / extensions
             pos, _ = r.choice(nodes)
